@@ -164,6 +164,21 @@ def Update (p : Pool) (sigOk : Bool) (id : String) (nonce : Int) (reported : Lis
           | .error e => (p3, .error (.ofBal e), [])
           | .ok b => (p3, .ok { invalid := inactive, active := active.map (·.uri), activeIds := active.map (·.id), balance := b }, [])
 
+/-- `Update` with the deposit lookup of the balance manager's final read-back failing (`GetNodeBalance` over the
+contract proxy: timelocked deposit, RPC error).  The read comes after the peers were credited and the client debited,
+so the state is that of `Update`; only the answer changes: the lookup error replaces the balance (and the
+minimum-balance verdict, which is never reached).  Only a node linked to a wallet has a deposit to look up. -/
+def UpdateReadFault (p : Pool) (sigOk : Bool) (id : String) (nonce : Int) (reported : List String) (block : Nat)
+    (now mnow : Int) (fail : Nat → Bool := fun _ => false) :
+    Pool × Bool × Except PoolErr UpdateResp × List (String × String) :=
+  let (p', r, calls) := p.Update sigOk id nonce reported block now mnow fail
+  let reached := match r with
+    | .ok _ => true
+    | .error (.lowBalance _ _) => true
+    | .error _ => false
+  if reached && (p'.store.accounts.get id).isSome && !p'.cfg.noBalance then (p', true, r, [])
+  else (p', false, r, calls)
+
 /-! ### peer requests -/
 
 inductive HostOutcome | ack | err | hang
